@@ -16,6 +16,7 @@ import (
 	"encoding/json"
 	"fmt"
 	"os"
+	"regexp"
 	"sort"
 	"strconv"
 	"strings"
@@ -39,8 +40,18 @@ type tcase struct {
 	//   "d"       Parse, Process, Parse of an unrelated module, Process
 	// Form: "" the type is written in a leaf; "typedef": in a typedef that a leaf uses (when there are
 	// errors only the errors are compared: the leaf then has no resolved type).
-	Hist string `json:"hist,omitempty"`
-	Form string `json:"form,omitempty"`
+	// Further forms (placements of the generated statement list), all on the text path:
+	//   "leaflist"  leaf-list l { type T {...} }
+	//   "chain"     typedef t1 { type T {...} } typedef t2 { type t1; } typedef t3 { type t2; } leaf l { type t3; }
+	//   "grouping"  grouping g { leaf l { type T {...} } } used by two containers (both copies are read)
+	//   "u1" "u2" "u3"  member 1 / 2 / 3 of a union whose other members are, in this order: the twin (a type
+	//               with exactly the members the model's fold leaves, written with explicit values; omitted
+	//               when nothing survives), an unrelated enumeration {x, y}, string
+	//   "dr" "da"   the inline type of `deviate replace` / `deviate add` in module m deviating leaf l of module o
+	// With errors the forms typedef, chain, dr, da compare the errors only (no resolved type reaches the leaf).
+	Hist string   `json:"hist,omitempty"`
+	Form string   `json:"form,omitempty"`
+	Twin []string `json:"twin,omitempty"` // union forms: surviving members "name:value", from the model
 }
 
 func (c tcase) key() string { return c.req() + " " + c.Hist + " " + c.Form }
@@ -157,33 +168,121 @@ func quoteYang(raw []byte) string {
 	return sb.String()
 }
 
-const firstMemberLine = 3
-
-func yangText(c tcase) string {
-	var sb strings.Builder
+// yangFiles returns the files of a text case in parse order (name, text) and the 1-based line of
+// m.yang on which the first generated member stands (every member has a line of its own).
+func yangFiles(c tcase) (files [][2]string, firstLine int) {
 	tn, mk, vk := "enumeration", "enum", "value"
 	if c.Kind == "b" {
 		tn, mk, vk = "bits", "bit", "position"
 	}
-	if c.Form == "typedef" {
-		sb.WriteString("module m { namespace \"urn:m\"; prefix m;\n typedef t { type " + tn + " {\n")
-	} else {
-		sb.WriteString("module m { namespace \"urn:m\"; prefix m;\n leaf l { type " + tn + " {\n")
-	}
+	var mem strings.Builder
 	for i := range c.Names {
 		if c.Vals[i] == "nil" {
-			sb.WriteString(mk + " " + c.Names[i] + ";\n")
+			mem.WriteString(mk + " " + c.Names[i] + ";\n")
 		} else {
 			raw, _ := lib.UnHex(c.Vals[i])
-			sb.WriteString(mk + " " + c.Names[i] + " { " + vk + " " + quoteYang(raw) + "; }\n")
+			mem.WriteString(mk + " " + c.Names[i] + " { " + vk + " " + quoteYang(raw) + "; }\n")
 		}
 	}
-	if c.Form == "typedef" {
-		sb.WriteString(" } }\n leaf l { type t; } }\n")
-	} else {
-		sb.WriteString(" } } }\n")
+	gen := "type " + tn + " {\n" + mem.String() + " }" // the generated type statement; members start on the next line
+	head := "module m { namespace \"urn:m\"; prefix m;\n"
+	var pre, post string
+	switch c.Form {
+	case "":
+		pre, post = head+" leaf l { ", " } }\n"
+	case "leaflist":
+		pre, post = head+" leaf-list l { ", " } }\n"
+	case "typedef":
+		pre, post = head+" typedef t { ", " }\n leaf l { type t; } }\n"
+	case "chain":
+		pre, post = head+" typedef t1 { ", " }\n typedef t2 { type t1; }\n typedef t3 { type t2; }\n leaf l { type t3; } }\n"
+	case "grouping":
+		pre, post = head+" grouping g { leaf l { ", " } }\n container c1 { uses g; }\n container c2 { uses g; } }\n"
+	case "u1", "u2", "u3":
+		var others []string
+		if len(c.Twin) > 0 {
+			tw := "type " + tn + " {"
+			for _, nv := range c.Twin {
+				kv := strings.SplitN(nv, ":", 2)
+				tw += " " + mk + " " + kv[0] + " { " + vk + " " + kv[1] + "; }"
+			}
+			others = append(others, tw+" }\n")
+		}
+		others = append(others, "type enumeration { enum x; enum y; }\n", "type string;\n")
+		at := int(c.Form[1] - '1')
+		if at > len(others) {
+			at = len(others)
+		}
+		pre = head + " leaf l { type union {\n" + strings.Join(others[:at], "")
+		post = "\n" + strings.Join(others[at:], "") + " } } }\n"
+	case "dr", "da":
+		files = append(files, [2]string{"o.yang", "module o { namespace \"urn:o\"; prefix o; leaf l { type string; } }\n"})
+		how := "replace"
+		if c.Form == "da" {
+			how = "add"
+		}
+		pre = "module m { namespace \"urn:m\"; prefix m; import o { prefix o; }\n deviation /o:l { deviate " + how + " {\n "
+		post = " } } }\n"
+	default:
+		return nil, 0
+	}
+	files = append(files, [2]string{"m.yang", pre + gen + post})
+	return files, strings.Count(pre, "\n") + 2
+}
+
+func yangText(c tcase) string {
+	files, _ := yangFiles(c)
+	var sb strings.Builder
+	for _, f := range files {
+		sb.WriteString("--- " + f[0] + "\n" + f[1])
 	}
 	return sb.String()
+}
+
+// tables finds the EnumType(s) the case is about in the processed modules (nil: no resolved type there).
+func tables(c tcase, ms *yang.Modules) []*yang.EnumType {
+	pick := func(t *yang.YangType) *yang.EnumType {
+		if t == nil {
+			return nil
+		}
+		if c.Kind == "b" {
+			return t.Bit
+		}
+		return t.Enum
+	}
+	typeOf := func(e *yang.Entry, path ...string) *yang.YangType {
+		for _, p := range path {
+			if e == nil {
+				return nil
+			}
+			e = e.Dir[p]
+		}
+		if e == nil {
+			return nil
+		}
+		return e.Type
+	}
+	switch c.Form {
+	case "dr", "da":
+		return []*yang.EnumType{pick(typeOf(yang.ToEntry(ms.Modules["o"]), "l"))}
+	case "grouping":
+		m := yang.ToEntry(ms.Modules["m"])
+		return []*yang.EnumType{pick(typeOf(m, "c1", "l")), pick(typeOf(m, "c2", "l"))}
+	case "u1", "u2", "u3":
+		u := typeOf(yang.ToEntry(ms.Modules["m"]), "l")
+		if u == nil {
+			return []*yang.EnumType{nil}
+		}
+		// the first member of the wanted kind that is not the unrelated {x, y}: the generated type, or a
+		// twin holding the same table
+		for _, t := range u.Type {
+			if e := pick(t); e != nil && !e.IsDefined("x") {
+				return []*yang.EnumType{e}
+			}
+		}
+		return []*yang.EnumType{nil}
+	}
+	return []*yang.EnumType{pick(typeOf(yang.ToEntry(ms.Modules["m"]), "l"))}
 }
 
 // runGo runs the real code on one case.
@@ -216,23 +315,22 @@ func runGo(c tcase) (out string) {
 		}
 		return dump(e, errs)
 	}
+	files, firstLine := yangFiles(c)
+	if files == nil {
+		return "bad-case"
+	}
 	ms := yang.NewModules()
-	if err := ms.Parse(yangText(c), "m.yang"); err != nil {
-		return "parse-error: " + err.Error()
+	for _, f := range files {
+		if err := ms.Parse(f[1], f[0]); err != nil {
+			return "parse-error: " + err.Error()
+		}
 	}
 	var dumps []string
 	look := func(raw []error) {
-		errs := classify(c, raw)
-		ent := yang.ToEntry(ms.Modules["m"])
-		l := ent.Dir["l"]
-		var e *yang.EnumType
-		if l != nil && l.Type != nil {
-			e = l.Type.Enum
-			if c.Kind == "b" {
-				e = l.Type.Bit
-			}
+		errs := classify(c, firstLine, raw)
+		for _, e := range tables(c, ms) {
+			dumps = append(dumps, project(c, dump(e, errs)))
 		}
-		dumps = append(dumps, project(c, dump(e, errs)))
 	}
 	switch c.Hist {
 	case "", "a":
@@ -245,7 +343,7 @@ func runGo(c tcase) (out string) {
 		look(ms.Process())
 	case "d":
 		look(ms.Process())
-		if err := ms.Parse("module o { namespace \"urn:o\"; prefix o; leaf x { type string; } }", "o.yang"); err != nil {
+		if err := ms.Parse("module p { namespace \"urn:p\"; prefix p; leaf x { type string; } }", "p.yang"); err != nil {
 			return "parse-error: " + err.Error()
 		}
 		look(ms.Process())
@@ -263,24 +361,33 @@ func runGo(c tcase) (out string) {
 const runsDiffer = "runs-differ: "
 const runSep = " || "
 
-// classify maps the errors of one run to "member index:class", in member order.
-func classify(c tcase, raw []error) []string {
+var posRe = regexp.MustCompile(`m\.yang:(\d+):(\d+): `)
+
+// classify maps the errors of one run to "member index:class", in member order.  A message may carry
+// several positions ("deviation has unresolvable type, [m.yang:4:1: ... m.yang:5:1: ...]"): each
+// position starts a segment that is classified on its own.
+func classify(c tcase, firstLine int, raw []error) []string {
 	var errs []string
 	for _, err := range raw {
 		m := err.Error()
-		// m.yang:LINE:COL: message
-		fs := strings.SplitN(m, ":", 4)
-		idx := -1
-		if len(fs) == 4 && fs[0] == "m.yang" {
-			if ln, e2 := strconv.Atoi(fs[1]); e2 == nil {
-				idx = ln - firstMemberLine
-			}
-		}
-		if idx < 0 || idx >= len(c.Names) {
+		locs := posRe.FindAllStringSubmatchIndex(m, -1)
+		if len(locs) == 0 {
 			errs = append(errs, "?:"+m)
 			continue
 		}
-		errs = append(errs, strconv.Itoa(idx)+":"+errClass(fmt.Errorf("%s", fs[3])))
+		for k, loc := range locs {
+			end := len(m)
+			if k+1 < len(locs) {
+				end = locs[k+1][0]
+			}
+			ln, _ := strconv.Atoi(m[loc[2]:loc[3]])
+			idx := ln - firstLine
+			if idx < 0 || idx >= len(c.Names) {
+				errs = append(errs, "?:"+m)
+				continue
+			}
+			errs = append(errs, strconv.Itoa(idx)+":"+errClass(fmt.Errorf("%s", strings.TrimRight(m[loc[1]:end], " ]"))))
+		}
 	}
 	sort.SliceStable(errs, func(i, j int) bool {
 		a, _ := strconv.Atoi(strings.SplitN(errs[i], ":", 2)[0])
@@ -293,7 +400,7 @@ func classify(c tcase, raw []error) []string {
 // project keeps what is compared: for the typedef form with errors only the errors (the leaf has no
 // resolved type then); everything otherwise.  Applied to the Go answer and to the model's answer.
 func project(c tcase, ans string) string {
-	if c.Form != "typedef" || !strings.HasPrefix(ans, "errs=") {
+	if !(c.Form == "typedef" || c.Form == "chain" || c.Form == "dr" || c.Form == "da") || !strings.HasPrefix(ans, "errs=") {
 		return ans
 	}
 	first := strings.Fields(ans)[0]
@@ -400,9 +507,12 @@ func choices(path string) []choice {
 	return out
 }
 
-// withHistories returns the text case c in every history (leaf form) and, when wanted, in the typedef
-// form under the two histories that process twice.
-func withHistories(c tcase, typedefToo bool) []tcase {
+var newForms = []string{"leaflist", "chain", "grouping", "u1", "u2", "u3", "dr", "da"}
+
+// expand returns the text case c (a bare statement list) in every history in a leaf, in the typedef form
+// under the two histories that process twice (when wanted), and in every other placement (history a).
+// twin: the members the model's fold leaves (for the union placements).
+func expand(c tcase, typedefToo bool, twin []string) []tcase {
 	var out []tcase
 	for _, h := range []string{"a", "b", "c", "d"} {
 		x := c
@@ -414,6 +524,48 @@ func withHistories(c tcase, typedefToo bool) []tcase {
 			x := c
 			x.Hist, x.Form = h, "typedef"
 			out = append(out, x)
+		}
+	}
+	for _, fm := range newForms {
+		x := c
+		x.Hist, x.Form = "a", fm
+		if fm[0] == 'u' {
+			x.Twin = twin
+		}
+		out = append(out, x)
+	}
+	return out
+}
+
+// twinOf reads the surviving members out of the model's answer ("errs=<idx:class,...> ... namemap=<hex>:<int>,...")
+// and lists them in written order (the members whose index is not among the rejected ones), so that the
+// twin builds the same value->name map too when two bits share a position.
+func twinOf(c tcase, modelAns string) []string {
+	rejected := map[int]bool{}
+	vals := map[string]string{}
+	for _, f := range strings.Fields(modelAns) {
+		switch {
+		case strings.HasPrefix(f, "errs="):
+			for _, p := range strings.Split(strings.TrimPrefix(f, "errs="), ",") {
+				if i, err := strconv.Atoi(strings.SplitN(p, ":", 2)[0]); err == nil {
+					rejected[i] = true
+				}
+			}
+		case strings.HasPrefix(f, "namemap="):
+			for _, p := range strings.Split(strings.TrimPrefix(f, "namemap="), ",") {
+				if p == "" {
+					continue
+				}
+				kv := strings.SplitN(p, ":", 2)
+				n, _ := lib.UnHex(kv[0])
+				vals[string(n)] = kv[1]
+			}
+		}
+	}
+	var out []string
+	for i, n := range c.Names {
+		if v, ok := vals[n]; ok && !rejected[i] {
+			out = append(out, n+":"+v)
 		}
 	}
 	return out
@@ -430,7 +582,14 @@ func main() {
 	if f.Thorough() {
 		maxLen = 4
 	}
-	var cases []tcase
+	// bare statement lists first (the model is asked about them before the placements are built:
+	// the union placements need the table the model's fold leaves)
+	type base struct {
+		c          tcase
+		typedefToo bool
+		random     bool
+	}
+	var bases []base
 	enumerated := int64(0)
 	for _, kind := range []string{"e", "b"} {
 		for _, path := range []string{"ops", "text"} {
@@ -443,11 +602,7 @@ func main() {
 			rec = func(names, vals []string) {
 				if len(names) > 0 {
 					c := tcase{Kind: kind, Path: path, Names: append([]string{}, names...), Vals: append([]string{}, vals...)}
-					if path == "text" {
-						cases = append(cases, withHistories(c, len(names) <= 2)...)
-					} else {
-						cases = append(cases, c)
-					}
+					bases = append(bases, base{c: c, typedefToo: len(names) <= 2})
 					enumerated++
 				}
 				if len(names) == lim {
@@ -468,10 +623,10 @@ func main() {
 			if o == "" {
 				h = "-"
 			}
-			cases = append(cases, withHistories(tcase{Kind: kind, Path: "text", Names: []string{"a"}, Vals: []string{h}}, true)...)
+			bases = append(bases, base{c: tcase{Kind: kind, Path: "text", Names: []string{"a"}, Vals: []string{h}}, typedefToo: true})
 			for _, other := range []string{"nil", lib.HexS("16"), lib.HexS("7"), lib.HexS("2147483647")} {
-				cases = append(cases, withHistories(tcase{Kind: kind, Path: "text", Names: []string{"a", "b"}, Vals: []string{h, other}}, true)...)
-				cases = append(cases, withHistories(tcase{Kind: kind, Path: "text", Names: []string{"a", "b"}, Vals: []string{other, h}}, true)...)
+				bases = append(bases, base{c: tcase{Kind: kind, Path: "text", Names: []string{"a", "b"}, Vals: []string{h, other}}, typedefToo: true},
+					base{c: tcase{Kind: kind, Path: "text", Names: []string{"a", "b"}, Vals: []string{other, h}}, typedefToo: true})
 				oddCount += 2
 			}
 			oddCount++
@@ -516,13 +671,52 @@ func main() {
 			}
 			c.Vals = append(c.Vals, v)
 		}
-		if path == "text" {
-			c.Hist = []string{"a", "b", "c", "d"}[r.Intn(4)]
-			if r.Intn(3) == 0 {
-				c.Form = "typedef"
+		bases = append(bases, base{c: c, random: true})
+	}
+
+	// the model and the specification on every bare statement list
+	baseReqs := make([]string, len(bases))
+	baseSpecReqs := make([]string, len(bases))
+	for i, b := range bases {
+		baseReqs[i] = b.c.req()
+		baseSpecReqs[i] = b.c.specReq()
+	}
+	baseAns, err := lib.ParBatch(f.Driver, baseReqs, f.Procs)
+	if err != nil {
+		lib.Fatal("driver: %v", err)
+	}
+	baseSpec, err := lib.ParBatch(f.Driver, baseSpecReqs, f.Procs)
+	if err != nil {
+		lib.Fatal("driver: %v", err)
+	}
+	// placements and histories
+	var cases []tcase
+	var ans, specAns []string
+	allForms := append([]string{"", "typedef"}, newForms...)
+	for i, b := range bases {
+		var xs []tcase
+		switch {
+		case b.c.Path == "ops":
+			xs = []tcase{b.c}
+		case b.random:
+			x := b.c
+			x.Form = allForms[r.Intn(len(allForms))]
+			x.Hist = "a"
+			if x.Form == "" || x.Form == "typedef" {
+				x.Hist = []string{"a", "b", "c", "d"}[r.Intn(4)]
 			}
+			if strings.HasPrefix(x.Form, "u") {
+				x.Twin = twinOf(b.c, baseAns[i])
+			}
+			xs = []tcase{x}
+		default:
+			xs = expand(b.c, b.typedefToo, twinOf(b.c, baseAns[i]))
 		}
-		cases = append(cases, c)
+		for _, x := range xs {
+			cases = append(cases, x)
+			ans = append(ans, project(x, baseAns[i]))
+			specAns = append(specAns, baseSpec[i])
+		}
 	}
 
 	// run Go (text path in parallel: independent Modules values)
@@ -539,33 +733,22 @@ func main() {
 		}(w)
 	}
 	wg.Wait()
-	reqs := make([]string, len(cases))
-	specReqs := make([]string, len(cases))
 	distinct := lib.NewDistinct()
 	nontrivial := int64(0)
 	byKey := map[string]int64{}
 	byHist := map[string]int64{}
-	for i, c := range cases {
-		reqs[i] = c.req()
-		specReqs[i] = c.specReq()
+	for _, c := range cases {
 		if distinct.Add(c.key()) && len(c.Names) >= 2 {
 			nontrivial++
 		}
 		byKey[c.Kind+"/"+c.Path]++
 		if c.Path == "text" {
-			byHist[c.Hist+"/"+map[string]string{"": "leaf", "typedef": "typedef"}[c.Form]]++
+			fm := c.Form
+			if fm == "" {
+				fm = "leaf"
+			}
+			byHist[c.Hist+"/"+fm]++
 		}
-	}
-	ans, err := lib.ParBatch(f.Driver, reqs, f.Procs)
-	if err != nil {
-		lib.Fatal("driver: %v", err)
-	}
-	specAns, err := lib.ParBatch(f.Driver, specReqs, f.Procs)
-	if err != nil {
-		lib.Fatal("driver: %v", err)
-	}
-	for i, c := range cases {
-		ans[i] = project(c, ans[i])
 	}
 	nViol, nHold := 0, 0 // separate caps: violating disagreements are never crowded out by harmless ones
 	accepted, rejected, na := int64(0), int64(0), int64(0)
@@ -617,7 +800,9 @@ func main() {
 	res.Rule = fmt.Sprintf("complete enumeration of member sequences of length 1..%d (direct Set/SetNext) and 1..3 (YANG text) over 15 boundary values x names {a, b, c} "+
 		"(45 choices per member, so duplicate names and three distinct names both occur), for enumeration and for bits; plus %d cases with odd argument spellings on the text path and %d seeded random sequences of length 4..10 over 6 names. "+
 		"Every text case goes through four histories of one Modules value - (a) Parse, Process; (b) Parse, Process, Process; (c) Parse, ToEntry(module), Process; (d) Parse, Process, Parse of an unrelated module, Process - "+
-		"and the result is taken after EVERY run (and after the early read in c); sequences up to length 2, the odd spellings and a third of the random ones also with the type in a typedef (histories b, d). "+
+		"and the result is taken after EVERY run (and after the early read in c); sequences up to length 2 and the odd spellings also with the type in a typedef (histories b, d). "+
+		"Every enumerated and odd statement list is also placed (history a) in a leaf-list, in a typedef used through a chain of three, in a grouping used twice (both copies read), as member 1 / 2 / 3 of a union beside "+
+		"its twin (exactly the members the model's fold leaves), an unrelated enumeration and string, and as the inline type of deviate replace / deviate add on a leaf of another module; the random ones get one random placement. "+
 		"Every Go answer (errors as member index + class, Names, Values, NameMap, ValueMap, point lookups) of every run is compared with the compiled model and judged against the RFC 7950 assignment. "+
 		"distinct_nontrivial = distinct cases with at least two members (the assignment rule is about earlier members)", maxLen, oddCount, nRand)
 	res.Distribution["enumerated_sequences"] = enumerated
